@@ -407,8 +407,21 @@ func (f *frame) load(n *node, p Val, t types.Type, pos token.Pos, what string) V
 	x := f.x
 	g := x.g
 	x.safety(f, n, "nil", "*"+what, not(eq(p.C[0], NilRef)), pos)
-	h := f.heapFor(n, p)
 	key := x.ptrKey(p)
+	if strings.HasPrefix(key, "global:") && !strings.HasPrefix(key, "global:ion.") && !strings.HasPrefix(key, "global:main.") {
+		if _, ok := t.Underlying().(*types.Interface); ok {
+			// library sentinel (io.EOF, io.ErrUnexpectedEOF, bufio.ErrBufferFull ...): a fixed non-nil
+			// value, distinct from every other sentinel, never reassigned (assumption)
+			id, ok := x.sentinels[key]
+			if !ok {
+				id = uint32(len(x.sentinels) + 2)
+				x.sentinels[key] = id
+			}
+			x.note("library variable %s is a constant non-nil sentinel distinct from all others", strings.TrimPrefix(key, "global:"))
+			return Val{T: t, C: []string{bvLit(3, 32), refLit(id)}}
+		}
+	}
+	h := f.heapFor(n, p)
 	r := Val{T: t, Old: p.Old}
 	for _, c := range x.comps(t) {
 		if p.Idx != "" {
@@ -422,7 +435,18 @@ func (f *frame) load(n *node, p Val, t types.Type, pos token.Pos, what string) V
 	if !x.g.InQuant() {
 		x.assumeWellFormed(r, n.reach)
 	}
+	if p.Idx == "" {
+		if m, ok := x.cells[p.C[0]+"/"+key]; ok && m.stores == 1 {
+			// a local cell written exactly once (a spilled parameter, a captured variable):
+			// the static attributes of the stored value survive the round trip
+			r.Old, r.Key, r.Idx, r.Fn, r.Bind, r.Dyn, r.StaticCap, r.Lit, r.HasLit = m.v.Old, m.v.Key, m.v.Idx, m.v.Fn, m.v.Bind, m.v.Dyn, m.v.StaticCap, m.v.Lit, m.v.HasLit
+		}
+	}
 	return r
+}
+
+func isAllocRef(t string) bool {
+	return len(t) == 10 && strings.HasPrefix(t, "#x") && t[2] >= '8'
 }
 
 func (f *frame) store(n *node, p Val, v Val, pos token.Pos, what string) {
@@ -438,7 +462,21 @@ func (f *frame) store(n *node, p Val, v Val, pos token.Pos, what string) {
 	if len(cs) != len(v.C) {
 		unsup("store of %s into %s: shape mismatch", v.T, pt)
 	}
-	if v.Idx != "" || (v.Key != "" && isPtr(v.T) && v.Key != pointeeKey(v.T.Underlying().(*types.Pointer).Elem())) {
+	single := false
+	if p.Idx == "" && isAllocRef(p.C[0]) {
+		ck := p.C[0] + "/" + key
+		m := x.cells[ck]
+		if m == nil {
+			m = &cellMeta{}
+			x.cells[ck] = m
+		}
+		if !(what == "alloc" && m.stores == 0) {
+			m.stores++
+			m.v = v
+		}
+		single = m.stores <= 1
+	}
+	if !single && (v.Idx != "" || (v.Key != "" && isPtr(v.T) && v.Key != pointeeKey(v.T.Underlying().(*types.Pointer).Elem()))) {
 		unsup("interior pointer %s escapes to the heap (%s)", v.Key, what)
 	}
 	eps := f.activeEpochs(n)
@@ -447,14 +485,14 @@ func (f *frame) store(n *node, p Val, v Val, pos token.Pos, what string) {
 			k := key + c.suffix + "[]"
 			arr := x.hget(n.heap, k, c.sort, SortBV64)
 			inner := "(store (select " + arr + " " + p.C[0] + ") " + p.Idx + " " + v.C[i] + ")"
-			x.hset(n.heap, k, c.sort, SortBV64, g.Fresh(heapArraySort(c.sort, SortBV64), "(store "+arr+" "+p.C[0]+" "+inner+")"))
+			x.hset(n.heap, k, c.sort, SortBV64, g.Fresh(heapArraySort(c.sort, SortBV64), "(store "+arr+" "+p.C[0]+" "+inner+")"), p.C[0])
 			for _, ep := range eps {
 				ep.written[k] = true
 			}
 		} else {
 			k := key + c.suffix
 			arr := x.hget(n.heap, k, c.sort, "")
-			x.hset(n.heap, k, c.sort, "", g.Fresh(heapArraySort(c.sort, ""), "(store "+arr+" "+p.C[0]+" "+v.C[i]+")"))
+			x.hset(n.heap, k, c.sort, "", g.Fresh(heapArraySort(c.sort, ""), "(store "+arr+" "+p.C[0]+" "+v.C[i]+")"), p.C[0])
 			for _, ep := range eps {
 				ep.written[k] = true
 			}
@@ -488,7 +526,7 @@ func (f *frame) initElems(n *node, ref, key string, et types.Type) {
 		k := key + c.suffix + "[]"
 		arr := x.hget(n.heap, k, c.sort, SortBV64)
 		z := zeroOfSort(x, arrSort(SortBV64, c.sort))
-		x.hset(n.heap, k, c.sort, SortBV64, x.g.Fresh(heapArraySort(c.sort, SortBV64), "(store "+arr+" "+ref+" "+z+")"))
+		x.hset(n.heap, k, c.sort, SortBV64, x.g.Fresh(heapArraySort(c.sort, SortBV64), "(store "+arr+" "+ref+" "+z+")"), ref)
 		for _, ep := range eps {
 			ep.written[k] = true
 		}
@@ -903,7 +941,7 @@ func (f *frame) convert(n *node, in *ssa.Convert) Val {
 		ref := x.newRef()
 		k := elemKey(types.Typ[types.Uint8]) + "[]"
 		arr := x.hget(n.heap, k, SortBV8, SortBV64)
-		x.hset(n.heap, k, SortBV8, SortBV64, g.Fresh(heapArraySort(SortBV8, SortBV64), "(store "+arr+" "+ref+" "+v.C[0]+")"))
+		x.hset(n.heap, k, SortBV8, SortBV64, g.Fresh(heapArraySort(SortBV8, SortBV64), "(store "+arr+" "+ref+" "+v.C[0]+")"), ref)
 		for _, ep := range f.activeEpochs(n) {
 			ep.written[k] = true
 		}
@@ -953,7 +991,7 @@ func (f *frame) makeInterface(n *node, v Val, from types.Type, to types.Type) Va
 	cs := x.comps(from)
 	for i, c := range cs {
 		arr := x.hget(n.heap, key+c.suffix, c.sort, "")
-		x.hset(n.heap, key+c.suffix, c.sort, "", x.g.Fresh(heapArraySort(c.sort, ""), "(store "+arr+" "+ref+" "+v.C[i]+")"))
+		x.hset(n.heap, key+c.suffix, c.sort, "", x.g.Fresh(heapArraySort(c.sort, ""), "(store "+arr+" "+ref+" "+v.C[i]+")"), ref)
 		for _, ep := range f.activeEpochs(n) {
 			ep.written[key+c.suffix] = true
 		}
